@@ -51,3 +51,29 @@ Definition check_allpaths (T : Z) (h : nat) (from to : Z) : list Z :=
 (** the words of the stored nodes below [q] (the nodes that have [q] as a prefix), in pre-order *)
 Definition spec_subtree (T : Z) (h : nat) (q : node) : list Z :=
   map (enc h) (filter (stored T) (map (app q) (all_nodes (h - length q)))).
+
+(** * a linear-time evaluator for Decode (used by the correspondence run on tall trees; proved
+    equal to [spec_decode] and to the model in Proofs/BmtreeDecodeFast.v) *)
+
+(** the word of the k-th stored node (pre-order) of the tree with level mask T and height h:
+    the root if it is stored and k = 0, else in the left sub-tree (which stores T/2 nodes) or in
+    the right one *)
+Fixpoint nth_word (h : nat) (T k : Z) : Z :=
+  match h with
+  | O => 0
+  | S h' =>
+      let t0 := Z.b2z (Z.testbit T 0) in
+      if k <? t0 then 0
+      else
+        let k1 := k - t0 in
+        if k1 <? T / 2 then 2 ^ Z.of_nat h' + nth_word h' (T / 2) k1
+        else 2 ^ (Z.of_nat h' + 32) + 2 ^ Z.of_nat h' + nth_word h' (T / 2) (k1 - T / 2)
+  end.
+
+(** one word per 1-bit of the bitmap below T *)
+Definition fast_decode (T : Z) (h : nat) (bm : list Z) : list Z :=
+  map (nth_word h T) (filter (fun p => p <? T) (ones (flat bm))).
+
+(** what the checker evaluates *)
+Definition check_decode (T : Z) (h : nat) (bm : list Z) : list Z :=
+  if (h <=? 10)%nat then spec_decode T h bm else fast_decode T h bm.
